@@ -247,6 +247,10 @@ func (it *Interp) intrinsic(name string, fn *ssa.Function, a []Val) Val {
 		switch o := it.cstr(a[0], "option"); o {
 		case "exact-decimal":
 			it.ex.cfg.ExactDecimal = true
+		case "decode-max-1":
+			it.ex.cfg.DecodeMaxLen = 1
+		case "max-enum-40":
+			it.ex.cfg.MaxEnum = 40
 		case "structured-keys":
 			it.ex.cfg.StructuredKeys = true
 		case "no-injective-sprintf":
